@@ -251,10 +251,15 @@ func TestC11(t *testing.T) {
 	m := mon.New(t, "C11")
 	defer m.Done()
 	c := &c11{m: m}
-	m.Rule("streams: low-order = every encoding of a small-order u (0, 1, p-1, the two order-8 values, their +p aliases below 2^255, each with bit 255 clear/set: 14 strings) x 32 scalars covering all clamped-bit patterns; edge = u in {0..32, p-32..p-1, every non-canonical p..2^255-1} x bit 255 clear/set x scalars cycling the clamped bits; random = uniformly random 32-byte scalar and u, with ScalarBaseMult vs X25519(s, Basepoint) and a two-party DH. Oracle = RFC 7748 ladder over math/big (verif/ref/x25519big); witness libsodium crypto_scalarmult_curve25519 (incl. its -1 for all-zero output). near-special = for each special encoding (9, 9|bit255, p+9, 0, 1, p-1, p, p+1, the order-8 values) every single-bit flip, every other value of byte 0 and of byte 31 and 18 random single-byte replacements, enumerated completely in both tiers. In-place forms (ScalarMult dst==point, dst==scalar, scalar==point, all three one array; ScalarBaseMult dst==scalar; X25519 on slices sharing/overlapping one backing array; RFC 7748 §5.2 iteration run in place) expect the same RFC value. Every input is snapshotted and must be unchanged after the call unless it is the output. Judged: X25519 value or error IFF reference value is all zero; ScalarMult dst equals the reference value (all zero for low order, dst pre-filled with 0xA5); ScalarBaseMult == X25519(s,Basepoint) == reference; shared secrets equal. Distinct = (entry point, input class).")
+	m.Rule("streams: low-order = every encoding of a small-order u (0, 1, p-1, the two order-8 values, their +p aliases below 2^255, each with bit 255 clear/set: 14 strings) x 32 scalars covering all clamped-bit patterns; edge = u in {0..32, p-32..p-1, every non-canonical p..2^255-1} x bit 255 clear/set x scalars cycling the clamped bits; random = uniformly random 32-byte scalar and u, with ScalarBaseMult vs X25519(s, Basepoint) and a two-party DH. Oracle = RFC 7748 ladder over math/big (verif/ref/x25519big); witness libsodium crypto_scalarmult_curve25519 (incl. its -1 for all-zero output). near-special = for each special encoding (9, 9|bit255, p+9, 0, 1, p-1, p, p+1, the order-8 values) every single-bit flip, every other value of byte 0 and of byte 31 and 18 random single-byte replacements, enumerated completely in both tiers. In-place forms (ScalarMult dst==point, dst==scalar, scalar==point, all three one array; ScalarBaseMult dst==scalar; X25519 on slices sharing/overlapping one backing array; RFC 7748 §5.2 iteration run in place) expect the same RFC value. Every input is snapshotted and must be unchanged after the call unless it is the output. Judged: X25519 value or error IFF reference value is all zero; ScalarMult dst equals the reference value (all zero for low order, dst pre-filled with 0xA5); ScalarBaseMult == X25519(s,Basepoint) == reference; shared secrets equal. Distinct = (entry point, input class)." + concRule)
 	m.Assume("verif/ref/x25519big passes RFC 7748 §5.2 (both vectors, 1 and 1000 iterations) and §6.1; x/crypto/curve25519 wraps crypto/ecdh, so the standard library is the implementation under observation, not an oracle")
 	m.Note("inputs whose length is not 32: the documentation only says the slices are 32 bytes; outcomes are recorded in wrong_length:* counters and not judged, except that a nil error must come with a 32-byte result")
 
+	if mon.RaceBuild { // race variant: only the shared-value concurrency stream
+		concC11(m)
+		return
+	}
+	concC11(m)
 	lo, lodesc := x25519big.LowOrderEncodings()
 	const scalarsPerLow = 32
 	m.Cases("low-order", len(lo)*scalarsPerLow, func(i int64, r *rand.Rand) {
